@@ -193,8 +193,8 @@ ToAvro(sv, s0, env) ==
          THEN LET b == Deref(s.branches[sv.idx + 1], env) IN     \* bare union / union of records
               [t |-> "union", i |-> sv.idx,
                v |-> IF b.k = "null" THEN [t |-> "null"] ELSE [t |-> "record", fields |-> <<>>]]
-         ELSE IF U THEN InBranch(sv, s, env, NamedIdx(s, env, {"enum"}, sv.name))   \* an enum inside a union
-         ELSE Undef
+         ELSE Undef    \* (an Avro enum inside a general union is not part of the documented mapping:
+                       \*  the reader takes the union itself for the Rust enum)
     [] c = "newtype_struct" ->
          IF s.k = "record" THEN (IF Len(s.fields) = 1 /\ Short(s) = sv.name
                                  THEN RecordOfSeq(<<sv.v>>, s, env) ELSE Undef)
@@ -312,8 +312,7 @@ Norm(sv, s0, env) ==
   ELSE
   CASE c \in ScalarCalls \cup {"none", "unit", "unit_struct"} -> sv
     [] c = "some" -> [sv EXCEPT !.v = Norm(sv.v, s.branches[3 - KindIdx(s, env, {"null"})], env)]
-    [] c = "unit_variant" ->
-         IF s.k = "union" /\ ToAvro(sv, s, env).v.t = "enum" THEN Norm(sv, BranchOf(sv, s, env), env) ELSE sv
+    [] c = "unit_variant" -> sv
     [] c = "newtype_struct" -> [sv EXCEPT !.v = Norm(sv.v, s.fields[1].type, env)]
     [] c = "newtype_variant" ->
          LET b == Deref(s.branches[sv.idx + 1], env) IN
@@ -336,6 +335,35 @@ Norm(sv, s0, env) ==
          [c |-> "struct_variant", name |-> sv.name, idx |-> sv.idx, variant |-> sv.variant,
           len |-> Len(b.fields), fields |-> NormFields(sv.fields, b, env)]
     [] OTHER -> [c |-> "undef"]
+
+(***************************************************************************)
+(* Equality of serde terms as Rust equality sees it: map entries form a    *)
+(* set (HashMap iteration order is arbitrary), everything else is          *)
+(* positional; floats are bit patterns.                                    *)
+(***************************************************************************)
+RECURSIVE TermEq(_, _)
+SeqTermEq(a, b) == Len(a) = Len(b) /\ \A i \in 1..Len(a) : TermEq(a[i], b[i])
+FieldsTermEq(a, b) == Len(a) = Len(b) /\ \A i \in 1..Len(a) : a[i][1] = b[i][1] /\ TermEq(a[i][2], b[i][2])
+TermEq(a, b) ==
+  IF a.c # b.c THEN FALSE
+  ELSE CASE a.c = "some" -> TermEq(a.v, b.v)
+         [] a.c = "newtype_struct" -> a.name = b.name /\ TermEq(a.v, b.v)
+         [] a.c = "newtype_variant" -> a.name = b.name /\ a.idx = b.idx /\ a.variant = b.variant /\ TermEq(a.v, b.v)
+         [] a.c = "seq" -> SeqTermEq(a.items, b.items)
+         [] a.c = "tuple" -> SeqTermEq(a.items, b.items)
+         [] a.c = "tuple_struct" -> a.name = b.name /\ SeqTermEq(a.items, b.items)
+         [] a.c = "tuple_variant" -> a.name = b.name /\ a.idx = b.idx /\ a.variant = b.variant /\ SeqTermEq(a.items, b.items)
+         [] a.c = "map" ->
+              /\ Len(a.entries) = Len(b.entries)
+              /\ \A i \in 1..Len(a.entries) : \E j \in 1..Len(b.entries) :
+                    a.entries[i][1] = b.entries[j][1] /\ TermEq(a.entries[i][2], b.entries[j][2])
+              /\ KeysDistinct(b.entries)
+         [] a.c = "struct" -> a.name = b.name /\ FieldsTermEq(a.fields, b.fields)
+         [] a.c = "structmap" -> FieldsTermEq(a.fields, b.fields)
+         [] a.c = "struct_variant" -> a.name = b.name /\ a.idx = b.idx /\ a.variant = b.variant
+                                      /\ FieldsTermEq(a.fields, b.fields)
+         [] a.c = "undef" -> FALSE
+         [] OTHER -> a = b
 
 (***************************************************************************)
 (* The fragment on which the schema-less mapping (to_value / from_value)   *)
@@ -364,7 +392,7 @@ CoincidesAt(sv, s0, env) ==
     [] sv.c = "seq" -> s.k = "array" /\ \A i \in 1..Len(sv.items) : CoincidesAt(sv.items[i], s.items, env)
     [] sv.c = "map" -> s.k = "map" /\ \A i \in 1..Len(sv.entries) : CoincidesAt(sv.entries[i][2], s.values, env)
     [] sv.c = "struct" ->
-         s.k = "record" /\ \A i \in 1..Len(sv.fields) :
+         s.k = "record" /\ Len(sv.fields) = Len(s.fields) /\ \A i \in 1..Len(sv.fields) :
             CoincidesAt(sv.fields[i][2], s.fields[FieldPos(s, sv.fields[i][1])].type, env)
     [] OTHER -> FALSE
 
